@@ -254,7 +254,7 @@ theorem apply_sites_as_modelled :
        "comm.c:query_addr_number:apply:call_back",
        "comm.c:query_addr_number:apply:call_back",
        "comm.c:got_addr_number:safe_apply:ipnumbertable[i].call_back",
-       "comm.c:notify_no_command:call_function_pointer:p.f",
+       "comm.c:notify_no_command:safe_call_function_pointer:p.f",
        "call_out.c:call_out:apply:cop->function.s",
        "call_out.c:call_out:call_function_pointer:cop->function.f"] := by decide
 
@@ -286,6 +286,32 @@ theorem preload_as_modelled :
        "ix++;",
        "for (; ix < prefiles->size; ix++)",
        "if (prefiles->item[ix].type != T_STRING)"] := by decide
+
+/-- `errorHandler` / `caughtError` / `callMasterHandler`: both branches (caught / uncaught) test
+    in_mudlib_error_handler; inside the handler the flag is cleared ONLY when the error is delivered to the context the
+    handler was entered with (`current_error_context == mudlib_error_handler_context`): a catch() made by the handler
+    keeps the flag (`caughtError` with the flag set changes nothing; behaviour `recurse` of the master ends like `raise`) -/
+theorem error_handler_stmts_as_modelled :
+    NV.Gen.C09.errorHandlerStmts =
+      ["if (in_mudlib_error_handler)",
+       "if (current_error_context == mudlib_error_handler_context)",
+       "in_mudlib_error_handler = 0;",
+       "in_mudlib_error_handler = 1;",
+       "mudlib_error_handler_context = current_error_context;",
+       "in_mudlib_error_handler = 0;",
+       "if (in_error)",
+       "in_error = 1;",
+       "if (in_mudlib_error_handler)",
+       "if (current_error_context == mudlib_error_handler_context)",
+       "in_mudlib_error_handler = 0;",
+       "in_mudlib_error_handler = 1;",
+       "mudlib_error_handler_context = current_error_context;",
+       "in_error = 0;",
+       "in_error = 1;",
+       "in_mudlib_error_handler = 0;",
+       "if (current_heart_beat)",
+       "current_heart_beat = 0;",
+       "in_error = 0;"] := by decide
 
 /-- every source shape of the repaired code that the model mirrors is present (all_users guard, re-validation through
     the object, recovery point before the start-up steps, load-average clamp, connect() under its own recovery point,
